@@ -111,6 +111,8 @@ MUTANTS['C11'] = [
 ]
 
 MUTANTS['C01'] = [
+  ('slice-keys-memo-on-class', [(C, "            self._keys = operator.itemgetter(*self.slice)(keys)", "            type(self)._keys = operator.itemgetter(*self.slice)(keys)")]),
+  ('batch-copy-drops-drop_last', [(C, "            batch_size=self.batch_size,\n            drop_last=self.drop_last,\n", "            batch_size=self.batch_size,\n")]),
   ('batch-iter-gt', [(C, "            if len(current_batch) >= self.batch_size:\n                yield current_batch", "            if len(current_batch) > self.batch_size:\n                yield current_batch")]),
   ('concat-iter-skips-empty-first-wrongly', [(C, "        for input_dataset in self.input_datasets:\n            if with_key:\n                iterable = input_dataset.__iter__(with_key=True)", "        for input_dataset in self.input_datasets[(1 if len(self.input_datasets) > 1 and len(self.input_datasets[0]) == 1 else 0):]:\n            if with_key:\n                iterable = input_dataset.__iter__(with_key=True)")]),
   ('intersperse-order-key', [(C, "((example_index + 1) / ds_len, dataset_index, example_index)", "(example_index / ds_len, dataset_index, example_index)")]),
